@@ -254,6 +254,9 @@ func (c canoner) value(v reflect.Value, withType bool) {
 			if c.collect == nil && f.Type() == dimType && f.Field(0).Float() == 0 {
 				continue // the dimension zero, whatever its unit
 			}
+			if (f.Kind() == reflect.Slice || f.Kind() == reflect.Map) && f.Len() == 0 {
+				continue // an empty non-nil slice / map is the same value as a nil one
+			}
 			if !first {
 				sb.WriteByte(' ')
 			}
